@@ -1,5 +1,8 @@
 import PybropsModel.J
 import PybropsModel.Model.LabelMat
+import PybropsModel.Model.LabelMatN
+import PybropsModel.Model.LabelHeap
+import PybropsModel.Model.LabelMatX
 import Std.Data.HashSet
 open Lean
 
@@ -70,6 +73,14 @@ def decIns (j : Json) : J.R InsIdx := do
   if let some (a, b, c) ← J.fieldOpt j "slice" decSlice then return .slice a b c
   J.fail "bad insert index"
 
+/-- every position form of numpy.insert: integer, list in any order, slice, boolean mask -/
+def decInsX (j : Json) : J.R InsIdxX := do
+  if let some i ← J.fieldOpt j "int" J.int then return .std (.int i)
+  if let some l ← J.fieldOpt j "list" (J.list J.int) then return .anyList l
+  if let some (a, b, c) ← J.fieldOpt j "slice" decSlice then return .std (.slice a b c)
+  if let some m ← J.fieldOpt j "mask" (J.list J.bool) then return .mask m
+  J.fail "bad insert index"
+
 def encGrp (g : Grp Int) : Json :=
   J.obj [("name", J.ofList J.ofInt g.name), ("stix", J.ofList J.ofNat g.stix),
          ("spix", J.ofList J.ofNat g.spix), ("len", J.ofList J.ofNat g.len)]
@@ -130,12 +141,12 @@ def opStep : J.Op := fun j => do
     pure <| encR encSt "st" (run false fun k => appendK sch k fill (pad k v) s)
   | "insert" =>
     let v ← J.field op "operand" decOperand
-    let o ← J.field op "obj" decIns
-    pure <| encR encSt "st" (run false fun k => insertK sch k o (pad k v) s)
+    let o ← J.field op "obj" decInsX
+    pure <| encR encSt "st" (run false fun k => insertXK sch k o (pad k v) s)
   | "incorp" =>
     let v ← J.field op "operand" decOperand
-    let o ← J.field op "obj" decIns
-    pure <| encR encSt "st" (run true fun k => incorpK sch k o (pad k v) s)
+    let o ← J.field op "obj" decInsX
+    pure <| encR encSt "st" (run true fun k => incorpXK sch k o (pad k v) s)
   | "concat" =>
     let others ← J.field op "others" (J.list decSt)
     let padSt (k : Kind) (t : S) : S :=
@@ -190,6 +201,18 @@ def opNp : J.Op := fun j => do
     let l ← J.field j "l" (J.list J.int)
     let v ← J.field j "v" (J.list J.int)
     pure <| encR (J.ofList J.ofInt) "l" (insertCol o l v)
+  | "insertx" =>
+    -- a 1-D array seen as an n x 1 x 1 matrix with one taxa label column: data and labels go through `insertXK`
+    let o ← J.field j "obj" decInsX
+    let l ← J.field j "l" (J.list J.int)
+    let v ← J.field j "v" (J.list J.int)
+    let sch : Schema := { ndim := 2, taxaAx := [0], vrntAx := [], traitAx := [] }
+    let st : S := { mat := l.map (fun x => [[x]]), taxa := { cols := [some l], grp := none },
+                    vrnt := { cols := [], grp := none }, trait := { cols := [], grp := none } }
+    let opd : Operand Int Int := { mat := v.map (fun x => [[x]]), cols := [some v] }
+    pure <| encR (fun (t : S) => J.obj [("data", J.ofList J.ofInt (t.mat.map (fun p => ((p.head?.bind List.head?).getD 0)))),
+                                        ("labels", J.ofOpt (J.ofList J.ofInt) ((t.taxa.cols.head?).join))]) "l"
+              (incorpXK sch .taxa o opd st)
   | "insert3" =>
     let o ← J.field j "obj" decIns
     let a ← J.field j "axis" J.nat
@@ -198,7 +221,204 @@ def opNp : J.Op := fun j => do
     pure <| encR (J.ofList (J.ofList (J.ofList J.ofInt))) "m" (insertMat a o m v)
   | other => J.fail s!"unknown np fn {other}"
 
+/-! ### square classes with any number of taxa axes (Model/LabelMatN.lean) -/
+
+open LabelMatN in
+def decTn : (r : Nat) → Json → J.R (Tn (List Int) r)
+  | 0, j => J.list J.int j
+  | r + 1, j => J.list (decTn r) j
+
+open LabelMatN in
+def encTn : (r : Nat) → Tn (List Int) r → Json
+  | 0, l => J.ofList J.ofInt l
+  | r + 1, l => J.ofList (encTn r) l
+
+open LabelMatN in
+def decStN (r : Nat) (j : Json) : J.R (StN Int Int r) := do
+  pure { mat := ← J.field j "mat" (decTn r), taxa := ← J.field j "taxa" decBundle,
+         trait := ← J.field j "trait" decBundle }
+
+open LabelMatN in
+def encStN (r : Nat) (s : StN Int Int r) : Json :=
+  J.obj [("mat", encTn r s.mat), ("taxa", encBundle s.taxa),
+         ("vrnt", encBundle { cols := List.replicate 9 none, grp := none }), ("trait", encBundle s.trait)]
+
+open LabelMatN in
+def decOperandN (r : Nat) (j : Json) : J.R (OperandN Int Int r) := do
+  pure { mat := ← J.field j "mat" (decTn r), cols := ← J.field j "cols" decCols }
+
+/-- one public operation of the N-D model; `r` = number of square taxa axes -/
+def opNdStep : J.Op := fun j => do
+  let r ← J.field j "r" J.nat
+  let drops ← J.fieldD j "pure_drops_other" J.bool true
+  let sch : LabelMatN.SchN := { pureDropsOther := drops }
+  let s ← J.field j "st" (decStN r)
+  let op ← J.field j "do" pure
+  let name ← J.field op "name" J.str
+  let generic ← J.fieldD op "generic" J.bool false
+  let axis ← J.fieldD op "axis" J.int 0
+  let kind ← J.fieldD op "kind" decKind .taxa
+  let fill ← J.fieldD op "fill" J.int 0
+  let noneLab ← J.fieldD op "none_code" J.int (-1)
+  let pad (k : Kind) (v : LabelMatN.OperandN Int Int r) := LabelMatN.padOperandN noneLab k s v
+  let run {β : Type} (f : Kind → R β) : R β := if generic then LabelMatN.dispatchN r axis f else f kind
+  let encS := encStN r
+  match name with
+  | "select" =>
+    let is ← J.field op "indices" (J.list J.int)
+    pure <| encR encS "st" (run fun k => LabelMatN.selectN sch k is s)
+  | "delete" =>
+    let o ← J.field op "obj" decDel
+    pure <| encR encS "st" (run fun k => LabelMatN.deleteN sch k o s)
+  | "remove" =>
+    let o ← J.field op "obj" decDel
+    pure <| encR encS "st" (run fun k => LabelMatN.removeN k o s)
+  | "reorder" =>
+    let is ← J.field op "indices" (J.list J.int)
+    pure <| encR encS "st" (run fun k => LabelMatN.reorderN k is s)
+  | "lexsort" =>
+    let keys ← J.fieldOpt op "keys" decCols
+    pure <| encR (J.ofList J.ofNat) "idx" (run fun k => LabelMatN.lexsortN le k keys s)
+  | "sort" =>
+    let keys ← J.fieldOpt op "keys" decCols
+    pure <| encR encS "st" (run fun k => LabelMatN.sortN le k keys s)
+  | "group" => pure <| encR encS "st" (run fun k => LabelMatN.groupN le k s)
+  | "ungroup" => pure <| encR encS "st" (run fun k => LabelMatN.ungroupN k s)
+  | "is_grouped" => pure <| encR J.ofBool "bool" (run fun k => LabelMatN.isGroupedN k s)
+  | "adjoin" =>
+    let v ← J.field op "operand" (decOperandN r)
+    pure <| encR encS "st" (run fun k => LabelMatN.adjoinN sch k fill (pad k v) s)
+  | "append" =>
+    let v ← J.field op "operand" (decOperandN r)
+    pure <| encR encS "st" (run fun k => LabelMatN.appendN k fill (pad k v) s)
+  | "insert" =>
+    let v ← J.field op "operand" (decOperandN r)
+    let o ← J.field op "obj" decIns
+    pure <| encR encS "st" (run fun k => LabelMatN.insertN sch k o (pad k v) s)
+  | "incorp" =>
+    let v ← J.field op "operand" (decOperandN r)
+    let o ← J.field op "obj" decIns
+    pure <| encR encS "st" (run fun k => LabelMatN.incorpN k o (pad k v) s)
+  | "concat" =>
+    let others ← J.field op "others" (J.list (decStN r))
+    let padSt (k : Kind) (t : LabelMatN.StN Int Int r) : LabelMatN.StN Int Int r :=
+      let q := match k with
+        | .taxa => (LabelMatN.dimsN r t.mat).headD 0
+        | _ => ((LabelMatN.firstLeaf r t.mat).map List.length).getD 0
+      t.setBundle k { (t.bundle k) with cols := padCols noneLab k q (s.bundle k).cols (t.bundle k).cols }
+    pure <| encR encS "st" (run fun k => LabelMatN.concatN sch k (s :: others.map (padSt k)))
+  | other => J.fail s!"unknown C03 N-D operation {other}"
+
+/-- the Spec of C03 on one step of the implementation, N-D classes -/
+def opNdSpec : J.Op := fun j => do
+  let r ← J.field j "r" J.nat
+  let pre ← J.field j "pre" (decStN r)
+  let operands ← J.field j "operands" (J.list (decStN r))
+  let post ← J.field j "post" (decStN r)
+  let fill ← J.fieldOpt j "fill" J.int
+  let src : Std.HashSet (LabelMatN.LCellN Int Int) :=
+    (pre :: operands).foldl (fun acc s => (LabelMatN.lcellsN s).foldl (fun a c => a.insert c) acc) {}
+  let bad := (LabelMatN.lcellsN post).filter (fun c => !(src.contains c || fill == some c.val))
+  let consistent := LabelMatN.consistentN post
+  let attached := bad.isEmpty
+  let partition := LabelMatN.groupedN post
+  let detail := if attached then "" else
+    match bad.head? with
+    | some c => s!"cell value {c.val} carries taxa labels {repr c.tax} and trait label {repr c.trt} that no input cell of that value has"
+    | none => ""
+  pure <| J.obj [("ok", J.ofBool (consistent && attached && partition)), ("consistent", J.ofBool consistent),
+                 ("attached", J.ofBool attached), ("partition", J.ofBool partition), ("detail", J.ofStr detail)]
+
+/-! ### several live objects: the heap / aliasing model (Model/LabelHeap.lean) -/
+
+/-- one history step as a model operation, given the receiver's state (`none`: lexsort / is_grouped / an axis no
+    bundle owns — no state change).  Operands are padded and the mask / unsorted position forms of numpy.insert are
+    reduced against the receiver, as in `c03.step` -/
+def decHistOp (noneLab : Int) (sch : Schema) (op : Json) : J.R (Option (S → R (Op Int Int))) := do
+  let name ← J.field op "name" J.str
+  let generic ← J.fieldD op "generic" J.bool false
+  let axis ← J.fieldD op "axis" J.int 0
+  let kind0 ← J.fieldD op "kind" decKind .taxa
+  let kind? : Option Kind :=
+    if generic then (match getAxis axis sch.ndim with | .ok a => sch.kindOf a | .error _ => none) else some kind0
+  match kind? with
+  | none => pure none
+  | some k =>
+    let const (o : Op Int Int) : Option (S → R (Op Int Int)) := some (fun _ => pure o)
+    match name with
+    | "select" => pure (const (.select k (← J.field op "indices" (J.list J.int))))
+    | "delete" => pure (const (.delete k (← J.field op "obj" decDel)))
+    | "remove" => pure (const (.remove k (← J.field op "obj" decDel)))
+    | "reorder" => pure (const (.reorder k (← J.field op "indices" (J.list J.int))))
+    | "sort" => pure (const (.sort k (← J.fieldOpt op "keys" decCols)))
+    | "group" => pure (const (.group k))
+    | "ungroup" => pure (const (.ungroup k))
+    | "adjoin" =>
+      let v ← J.field op "operand" decOperand
+      pure (some (fun s => pure (.adjoin k (padOperand noneLab sch k s v))))
+    | "append" =>
+      let v ← J.field op "operand" decOperand
+      pure (some (fun s => pure (.append k (padOperand noneLab sch k s v))))
+    | "insert" =>
+      let v ← J.field op "operand" decOperand
+      let o ← J.field op "obj" decInsX
+      pure (some (fun s => do
+        let v' := padOperand noneLab sch k s v
+        let r ← reduceIns sch k (s.len sch k) (operandLen sch k v') o v'
+        pure (.insert k r.1 r.2)))
+    | "incorp" =>
+      let v ← J.field op "operand" decOperand
+      let o ← J.field op "obj" decInsX
+      pure (some (fun s => do
+        let v' := padOperand noneLab sch k s v
+        let r ← reduceIns sch k (s.len sch k) (operandLen sch k v') o v'
+        pure (.incorp k r.1 r.2)))
+    | "concat" =>
+      let others ← J.field op "others" (J.list decSt)
+      pure (some (fun s => pure (.concat k (others.map (fun t =>
+        padOperand noneLab sch k s { mat := t.mat, cols := (t.bundle k).cols })))))
+    | _ => pure none
+
+def encBundleRef (b : LabelHeap.BundleRef) : Json :=
+  J.obj [("cols", J.ofList (J.ofOpt J.ofNat) b.cols),
+         ("grp", J.ofOpt (fun (g : LabelHeap.GrpRef) => J.ofList J.ofNat [g.name, g.stix, g.spix, g.len]) b.grp)]
+
+def encObjRef (o : LabelHeap.Obj) : Json :=
+  J.obj [("mat", J.ofNat o.mat), ("taxa", encBundleRef o.taxa), ("vrnt", encBundleRef o.vrnt),
+         ("trait", encBundleRef o.trait)]
+
+/-- run a whole history (receiver index + operation per step) on the heap model and report, after every step, the
+    array addresses of every live object: two fields with the same address are the SAME ndarray in the model -/
+def opHeapRun : J.Op := fun j => do
+  let sch ← J.field j "sch" decSchema
+  let init ← J.field j "init" decSt
+  let steps ← J.field j "steps" (J.list pure)
+  let fill ← J.fieldD j "fill" J.int 0
+  let noneLab ← J.fieldD j "none_code" J.int (-1)
+  let r0 := LabelHeap.storeFresh ([] : LabelHeap.Heap Int Int) init
+  let mut hp : LabelHeap.Heap Int Int × List LabelHeap.Obj := (r0.1, [r0.2])
+  let mut out : Array Json := #[]
+  for st in steps do
+    let on ← J.field st "on" J.nat
+    let skip ← J.fieldD st "skip" J.bool false
+    let op? ← decHistOp noneLab sch st
+    match op?, skip with
+    | some mk, false =>
+      match (hp.2[on]?).bind (LabelHeap.view hp.1) with
+      | some s =>
+        match mk s with
+        | .ok op =>
+          match LabelHeap.hstep le sch fill on op hp with
+          | some hp' => hp := hp'
+          | none => pure ()
+        | .error _ => pure ()
+      | none => pure ()
+    | _, _ => pure ()
+    out := out.push (J.ofList encObjRef hp.2)
+  pure <| J.obj [("tables", Json.arr out)]
+
 def ops : List (String × J.Op) :=
-  [("c03.step", opStep), ("c03.spec_step", opSpecStep), ("c03.np", opNp)]
+  [("c03.step", opStep), ("c03.spec_step", opSpecStep), ("c03.np", opNp),
+   ("c03.nd_step", opNdStep), ("c03.nd_spec", opNdSpec), ("c03.heap_run", opHeapRun)]
 
 end Drv.C03
